@@ -84,6 +84,49 @@ Check (try_f64_sound : forall t r,
 Check (try_f64_refuses : forall fixed t,
   lexical_form t = None \/ in_list (datatype t) wl_f64 = false -> try_f64 fixed t = RErr).
 
+(* ---- copies of a native term (any representation, any serialisation that preserves Term::eq) ---- *)
+Check (native_rep_eq : forall digits_of fixed v t,
+  term_eqb (native_term digits_of fixed v) t = true -> t = native_term digits_of fixed v).
+Check (native_is_literal : forall digits_of fixed v,
+  kind_of (native_term digits_of fixed v) = KLiteral
+  /\ lexical_form (native_term digits_of fixed v) = Some (lexical_native digits_of fixed v)
+  /\ datatype (native_term digits_of fixed v) = datatype_native v).
+Check (reps_ok_sound : forall digits_of fixed v kinds images,
+  reps_ok (native_term digits_of fixed v) kinds images = true ->
+  (forall k, In k kinds -> k = 2) /\ (forall t, In t images -> t = native_term digits_of fixed v)).
+Check (int_rep_roundtrip : forall digits_of fixed ty z t,
+  in_ity ty z = true -> term_eqb (native_term digits_of fixed (NInt ty z)) t = true ->
+  try_int fixed ty t = inr z).
+Check (bool_rep_roundtrip : forall digits_of fixed b t,
+  term_eqb (native_term digits_of fixed (NBool b)) t = true -> try_bool t = Some b).
+Check (str_rep_roundtrip : forall digits_of fixed s t,
+  term_eqb (native_term digits_of fixed (NStr s)) t = true ->
+  lexical_form t = Some s /\ datatype t = xsd_string).
+Check (f64_rep_roundtrip_class : forall digits_of : N -> Z -> str * Z,
+  (forall m e, all_digits (fst (digits_of m e)) = true) ->
+  forall x t, term_eqb (native_term digits_of true (NF64 x)) t = true ->
+  try_f64 true t = class_of x).
+
+(* ---- pretty Turtle / TriG: literals written as bare tokens ---- *)
+Check (bare_reads_back : forall t, written_bare t = true -> read_bare (lexical t) = Some t).
+Check (int_written_bare : forall digits_of fixed ty z,
+  written_bare (native_term digits_of fixed (NInt ty z)) = true
+  /\ read_bare (print_int z) = Some (native_term digits_of fixed (NInt ty z))).
+Check (bool_written_bare : forall digits_of fixed b,
+  written_bare (native_term digits_of fixed (NBool b)) = true
+  /\ read_bare (print_bool b) = Some (native_term digits_of fixed (NBool b))).
+Check (str_never_bare : forall digits_of fixed s,
+  written_bare (native_term digits_of fixed (NStr s)) = false).
+Check (f64_never_bare : forall digits_of : N -> Z -> str * Z,
+  (forall m e, all_digits (fst (digits_of m e)) = true) ->
+  forall x, written_bare (native_term digits_of true (NF64 x)) = false).
+Check (bare_examples :
+  map written_bare [LitDt [49;101;53] xsd_double; LitDt [43;49;46;101;45;51] xsd_double; LitDt [49;46;53] xsd_double;
+                    LitDt [49;46;53] xsd_decimal; LitDt [46;53] xsd_decimal; LitDt [53;46] xsd_decimal; LitDt [43;48;48;55] xsd_integer;
+                    LitDt [49] xsd_boolean; LitDt s_true xsd_boolean; LitDt [49;101;53] xsd_decimal; LitDt [53] xsd_int;
+                    LitLang [53] [101;110]; Iri xsd_integer]
+  = [true; true; false; true; true; false; true; false; true; false; false; false; false]).
+
 (* ---- the code before the repair, and what no repair can reach ---- *)
 Check (try_int_prefix_refuted :
   try_int false I32 (LitDt [53] xsd_negativeInteger) = inr 5%Z
@@ -148,6 +191,20 @@ Example double_lex_examples :
     = [true; true; true; false; false; false].
 Proof. vm_compute. repeat split. Qed.
 
+(* copies: the checker accepts the literal and nothing else; a bare token of each kind reads back *)
+Example reps_example :
+  int_reps_ok 0 (-7) [2; 2] [LitDt [45;55] xsd_integer] = true
+  /\ int_reps_ok 0 (-7) [2] [LitDt [45;55] xsd_int] = false
+  /\ int_reps_ok 0 (-7) [1] [] = false
+  /\ str_reps_ok [104;105] [2] [LitLang [104;105] [101;110]] = false
+  /\ f64_reps_ok 2 [2] [LitDt s_mINF xsd_double] = true
+  /\ read_bare [45;55] = Some (LitDt [45;55] xsd_integer)
+  /\ read_bare [46;53] = Some (LitDt [46;53] xsd_decimal)
+  /\ read_bare [49;69;43;50] = Some (LitDt [49;69;43;50] xsd_double)
+  /\ read_bare s_false = Some (LitDt s_false xsd_boolean)
+  /\ read_bare s_INF = None /\ read_bare [53;46] = None.
+Proof. vm_compute. repeat split. Qed.
+
 Print Assumptions print_int_lex.
 Print Assumptions print_int_value.
 Print Assumptions parse_int_sound.
@@ -176,6 +233,19 @@ Print Assumptions try_int_prefix_refuted.
 Print Assumptions f64_term_prefix_refuted.
 Print Assumptions try_f64_prefix_refuted.
 Print Assumptions str_term_refuted.
+Print Assumptions native_rep_eq.
+Print Assumptions native_is_literal.
+Print Assumptions reps_ok_sound.
+Print Assumptions int_rep_roundtrip.
+Print Assumptions bool_rep_roundtrip.
+Print Assumptions str_rep_roundtrip.
+Print Assumptions f64_rep_roundtrip_class.
+Print Assumptions bare_reads_back.
+Print Assumptions int_written_bare.
+Print Assumptions bool_written_bare.
+Print Assumptions str_never_bare.
+Print Assumptions f64_never_bare.
+Print Assumptions bare_examples.
 
 (* ---- tie to the source: the datatype white-lists of the model are the ones found in
    api/src/term/_native_literal.rs today (re-generated into gen/Consts.v on every run) ---- *)
